@@ -28,6 +28,10 @@ T('C20', 'exhaustive bounded enumeration of paired real model runs (cross-sectio
   'Bounded exhaustive model checking of the real correlated-k path: for every configuration (8 weight vectors with 1-4 g-points incl. a zero-weight point, degenerate and spread k-distributions, transmission / emission / direct image, 4 opacity magnitudes, layer counts, temperature profiles, contribution orders, both path methods) the k-table run is compared with the reference T = sum_g w_g exp(-tau_g) (slant geometry and emission integral of mc/ref/rt.py), with the [0,1] range and the Jensen bound, and in the degenerate case with the cross-section run of the same numbers.',
   'numba/numpy trusted; profiles read from the model; k-tables are pickle files written by the harness and discovered by the real cache; small-scope hypothesis')
 
+T('C19', 'exhaustive enumeration of cloud-top letters (every level, every layer pressure, between, outside) and of all top x bottom haze-bound letter pairs (unset/level/centre/inside/outside, inverted, equal) on real TransmissionModels, with per-layer window oracle',
+  'Bounded exhaustive model checking of the real cloud and haze contributions: for each layer count (2-13) and pressure range every cloud-top position class is run with and without a companion absorber and compared layer by layer with the cloud-free model (opaque at/below, bit-identical above, depth bound); for FlatMie and LeeMie all 81 (top, bottom) letter pairs x magnitudes x particle letters are run and each layer is classified from the level pressures (wholly outside => exactly zero, wholly inside an ordered window => exactly the declared magnitude / Lee law, partial => within [0, full]); no NaN and no exception for any letter.',
+  'standard log-spaced pressure grid only; numba/numpy trusted; touching a window edge counts as partial; small-scope hypothesis')
+
 
 def main():
     props = [json.loads(l) for l in open(os.path.join(VERIF, 'properties.jsonl'))]
